@@ -440,6 +440,51 @@ func c7Faults(thorough bool) []c7Fault {
 		add("hex:upper-case:"+f.name, func(rng *rand.Rand, s *world.Spec) { p := f.get(&s.Qe); *p = strings.ToUpper(*p) }) // same bytes: must not matter
 		add("hex:0x-prefix:"+f.name, func(rng *rand.Rand, s *world.Spec) { p := f.get(&s.Qe); *p = "0x" + *p })
 	}
+	// --- unsigned content next to the signed identity: a look-alike member (the key in another spelling, or the very same key)
+	// before / after / between the signed member and the signature describes exactly this QE, while the SIGNED identity does
+	// not (another signer, another product, the selected level not UpToDate, every level above the report).  Only what Intel
+	// signed is the QE Identity.
+	for _, what := range []string{"mrsigner", "isvprodid", "level-status", "all-levels-above"} {
+		for _, pos := range []string{"after", "between", "before"} {
+			for _, sp := range []string{"UPPER", "MiXed", "exact", "lower"} {
+				what, pos, sp := what, pos, sp
+				add("unsigned-member:"+what+"/"+sp+"/"+pos, func(rng *rand.Rand, s *world.Spec) {
+					good := s.Qe
+					good.Levels = append([]world.QeLevel{}, s.Qe.Levels...)
+					s.Qe.Levels = append([]world.QeLevel{}, s.Qe.Levels...)
+					switch what {
+					case "mrsigner":
+						b, _ := hex.DecodeString(s.Qe.Mrsigner)
+						b[rng.IntN(len(b))] ^= 1 << rng.IntN(8)
+						s.Qe.Mrsigner = hex.EncodeToString(b)
+					case "isvprodid":
+						s.Qe.IsvProdID ^= 1 << rng.IntN(16)
+					case "level-status":
+						for k := range s.Qe.Levels {
+							if s.Qe.Levels[k].Status == "UpToDate" {
+								s.Qe.Levels[k].Status = []string{"OutOfDate", "Revoked"}[rng.IntN(2)]
+							}
+						}
+					default:
+						for k := range s.Qe.Levels {
+							s.Qe.Levels[k].Isvsvn = 65535
+						}
+					}
+					s.QeResp.AltJSON = good.JSON()
+					alt := world.Member{Key: spell("enclaveIdentity", sp), Kind: "alt"}
+					signed, sig := world.Member{Key: "enclaveIdentity", Kind: "signed"}, world.Member{Key: "signature", Kind: "sig"}
+					switch pos {
+					case "after":
+						s.QeResp.Members = []world.Member{signed, sig, alt}
+					case "before":
+						s.QeResp.Members = []world.Member{alt, signed, sig}
+					default:
+						s.QeResp.Members = []world.Member{signed, alt, sig}
+					}
+				})
+			}
+		}
+	}
 	return fs
 }
 
